@@ -569,6 +569,18 @@ func c12Job(ctx context.Context, r *rep.Run, st *c12Stats, idents []identity.Ful
 				return nil // this receiver is lost to the hanging merge
 			}
 			after := c12Dump(rc)
+			if derr != nil && after == before {
+				// second delivery: the rejected block now sits in the receiver's blockstore as an orphan
+				atomic.AddInt64(&st.received, 1)
+				derr = deliver(rc, tsn, tc)
+				after = c12Dump(rc)
+				if derr == nil || after != before {
+					r.Violation(rep.Violation{Fingerprint: "C12:forged-commit-accepted-on-second-delivery:" + t.Kind,
+						Summary: fmt.Sprintf("%s %s composite %s, %s: rejected the first time, the second delivery returned %v; receiver state changed: %v", keyType, h.Name, b.c, t.Kind, derr, after != before),
+						Replay:  info})
+				}
+				continue
+			}
 			if derr == nil || after != before {
 				r.Violation(rep.Violation{Fingerprint: "C12:forged-commit-accepted:" + t.Kind,
 					Summary: fmt.Sprintf("%s %s composite %s, %s: receive path returned %v; receiver state changed: %v\n--- before\n%s\n--- after\n%s", keyType, h.Name, b.c, t.Kind, derr, after != before, before, after),
